@@ -29,6 +29,10 @@ Case line (kind `a2`), fields separated by `|`:
   route   R=c constructor (default) · s explicit __setstate__(__getstate__()) of an object built with the keyword ·
           y copy.copy of it (both restore through __setstate__) · l clone_traits(copy="shallow"): the `ctor v`
           op is then the state-restoring assignment
+  owner   B=b / B=l: the class of the object (and every other class of the case) defines `__bool__` returning False /
+          `__len__` returning 0: the object is alive but FALSY.  Nothing in the statement depends on an object's truth
+          value; the switch is a checksum of the rest of the line (about a third of the cases each).  The pool values
+          ht_fl / ht_fb are falsy HasTraits instances; TT=inst is a real Instance(HasTraits) trait
   handlers DH=1: NO exception handler is pushed (the library's default ones run; logging silenced) ·
           H behaviour per handler id (o ok, r raises, e<j> raises variant j of a richer exception set — RuntimeError
           family with non-string / empty args, other classes, no args —, k<n> raises at the n-th handler call of the case,
@@ -108,6 +112,12 @@ def mk_case(T, names, H, RL, RO, S, ops):
     hf = "H=%s RL=%d RO=%d S=%s" % (",".join(H) or "o", RL, RO, ",".join(S) or "-")
     if T.get("DH"):
         hf += " DH=1"
+    B = T.get("B")
+    if B is None:
+        import zlib
+        B = ["", "b", "l"][zlib.crc32(("%s|%s|%s|%s" % (tf, ",".join(names), hf, ";".join(ops))).encode()) % 3]
+    if B:
+        tf += " B=" + B
     return "a2|%s|%s|%s|%s" % (tf, pool_spec(names), hf, ";".join(ops))
 
 
@@ -194,7 +204,7 @@ def exhaustive(maxlen, pools):
 
 PAIRS = [("int1", "float1", "true"), ("big_a", "big_b"), ("str_a", "str_b"), ("nan", "nan2"), ("tup_a", "tup_b"),
          ("arr_a", "arr_b"), ("arr1", "arr1b"), ("list_a", "list_b"), ("plain_a", "plain_b")]
-SINGLES = ["int7", "str_c", "eqraises", "incons", "eqtrue_neraises", "veto"]
+SINGLES = ["int7", "str_c", "eqraises", "incons", "eqtrue_neraises", "veto", "ht_fl", "ht_fb", "ht_fl", "ht_fb"]
 
 
 def random_names(rng, tt):
@@ -204,6 +214,9 @@ def random_names(rng, tt):
         extra = ["int1", "int7", "big_a", "big_b"][: rng.randint(2, 4)] + rng.sample(["str_c", "float1", "nan", "arr_a"], 2)
     elif tt == "str":
         extra = ["str_a", "str_b", "str_c"][: rng.randint(2, 3)] + rng.sample(["int1", "nan", "tup_a", "eqraises"], 2)
+    elif tt == "inst":
+        extra = ["ht_fl", "ht_fb"] + rng.sample(["int1", "str_c", "plain_a", "tup_a"], 2)
+        rng.shuffle(extra)
     elif tt == "cast":
         # Trait(<int>): accepts ints as they are; would CONVERT floats / arrays, so those stay out of the pool
         extra = ["int1", "int7", "big_a", "big_b"][: rng.randint(2, 4)] + rng.sample(["str_c", "nan", "tup_a", "eqraises"], 2)
@@ -224,7 +237,7 @@ def random_names(rng, tt):
 
 
 def random_case(rng):
-    tt = rng.choice(["tab"] * 8 + ["int", "str", "expr", "cast"])
+    tt = rng.choice(["tab"] * 8 + ["int", "str", "expr", "cast", "inst"])
     names = random_names(rng, tt)
     n = len(names)
     T = base_T(TT=tt)
@@ -236,6 +249,9 @@ def random_case(rng):
         T["V"] = ",".join(tab)
     elif tt == "str":
         tab = ["=" if names[i] in A.STR_NAMES else "T" for i in range(n)]
+        T["V"] = ",".join(tab)
+    elif tt == "inst":
+        tab = ["=" if names[i] in A.INST_NAMES else "T" for i in range(n)]
         T["V"] = ",".join(tab)
     elif tt == "expr":
         # Expression: compiles the string (a new code object each time = `code_k`), stores the string itself
@@ -273,6 +289,8 @@ def random_case(rng):
                   and (tab is None or tt == "tab" or tab[i] == "=")]
     if tt == "expr":
         ok_default = [names.index("expr_0")]
+    if tt == "inst":
+        ok_default = [2]
     T["D"] = str(rng.choice(ok_default)) if ok_default and rng.random() < 0.6 else ("2" if tt == "tab" else
                                                                                    str(ok_default[0]))
     if tt == "tab" and rng.random() < 0.12:
@@ -593,6 +611,10 @@ def run_impl(case):
                     state["post"].append(value)
                 Expression.post_setattr(self, object, name, value)
         trait = Ex(pool.objs[dflt], comparison_mode=ComparisonMode(cmode))
+    elif T["TT"] == "inst":
+        from traits.api import Instance
+        assert dflt == 2
+        trait = Instance(HasTraits, comparison_mode=ComparisonMode(cmode))
     elif T["TT"] == "cast":
         from traits.api import Trait
         trait = Trait(pool.objs[dflt], comparison_mode=ComparisonMode(cmode))     # a CTrait
@@ -639,6 +661,12 @@ def run_impl(case):
         HasTraits._post_init_trait_observers(self)
     ns["_post_init_trait_listeners"] = _post_init_trait_listeners
     ns["_post_init_trait_observers"] = _post_init_trait_observers
+    falsy = T.get("B", "")
+    tags.add("owner:" + {"": "truthy", "b": "falsy-__bool__", "l": "falsy-__len__"}[falsy])
+    if falsy == "b":
+        ns["__bool__"] = lambda self: False
+    elif falsy == "l":
+        ns["__len__"] = lambda self: 0
     hits = []
     if T["Z"] == "i":
         ns["x"] = trait
@@ -681,6 +709,8 @@ def run_impl(case):
         cls = type("Plain", (HasTraits,), ns)
     obj = cls.__new__(cls)
     holder["obj"] = obj
+    if bool(obj) != (falsy == ""):
+        raise AssertionError("owner truth value is not what the case line says")
     nval_spec = state["nval"]    # validator calls made while the class was built (override by value)
     outs = []
     i0 = 0
